@@ -84,7 +84,7 @@ func zoomCost(ids []ID, h, v int64) int64 {
 
 func driveZoom(t *Tracer, r Rng, n int) {
 	for i := 0; i < n; i++ {
-		if i%400 == 7 { // a large refinement of one voxel (up to 4^8 or 2^14 descendants)
+		if i%400 == 7 && i < 10000 { // a large refinement of one voxel (up to 4^8 or 2^14 descendants)
 			hD, vD := r.In(6, 20), r.In(6, 20)
 			w := r.randomWindow(hD, vD, false)
 			var id ID
